@@ -46,6 +46,8 @@ type Exec struct {
 	noOverflow bool
 	maxPaths  int
 	block     *BlockSpec
+	recFuncs  map[string]*recFuncInfo
+	recOrder  []string
 }
 
 func NewExec(v *Verifier, fn *ssa.Function, key string, c *Contract) *Exec {
@@ -101,7 +103,10 @@ func (x *Exec) heapTerm(st *State, elem types.Type) (string, *Term) {
 		return key, h
 	}
 	x.heapElem[key] = elem
-	x.declare(key, x.ti.HeapSort(elem))
+	if !x.declared[key] {
+		x.declare(key, x.ti.HeapSort(elem))
+		x.axioms = append(x.axioms, x.heapRefsBounded(Atom(key, x.ti.HeapSort(elem)), elem, Atom("alloc0", SInt))...)
+	}
 	h := Atom(key, x.ti.HeapSort(elem))
 	st.heap[key] = h
 	if st.entry != nil {
@@ -110,6 +115,50 @@ func (x *Exec) heapTerm(st *State, elem types.Type) (string, *Term) {
 		}
 	}
 	return key, h
+}
+
+// refTerms lists the reference components of a value of type t.
+func (x *Exec) refTerms(v *Term, t types.Type, depth int) []*Term {
+	if depth > 3 {
+		return nil
+	}
+	switch u := t.Underlying().(type) {
+	case *types.Slice:
+		return []*Term{Sel("s-ref", v)}
+	case *types.Pointer:
+		return []*Term{Sel("p-ref", v)}
+	case *types.Map:
+		return []*Term{v}
+	case *types.Struct:
+		dt := datatypes[v.Sort]
+		if dt == nil {
+			return nil
+		}
+		var out []*Term
+		for i, f := range dt.fields {
+			out = append(out, x.refTerms(Sel(f, v), u.Field(i).Type(), depth+1)...)
+		}
+		return out
+	}
+	return nil
+}
+
+// heapRefsBounded: every reference stored anywhere in heap h is at most alloc
+// (the allocator hands out references in increasing order).
+func (x *Exec) heapRefsBounded(h *Term, elem types.Type, alloc *Term) []*Term {
+	x.counter++
+	r := Atom(fmt.Sprintf("r!w%d", x.counter), SInt)
+	i := Atom(fmt.Sprintf("i!w%d", x.counter), SInt)
+	cell := App("select", x.ti.SortOf(elem), App("select", ArraySort(SInt, x.ti.SortOf(elem)), h, r), i)
+	refs := x.refTerms(cell, elem, 0)
+	if len(refs) == 0 {
+		return nil
+	}
+	var conj []*Term
+	for _, rt := range refs {
+		conj = append(conj, Le(IntLit(0), rt), Le(rt, alloc))
+	}
+	return []*Term{{Op: "forall", Sort: SBool, Bound: []*Term{r, i}, Args: []*Term{And(conj...)}, Pats: []*Term{cell}}}
 }
 
 func (x *Exec) heapByKey(st *State, key string, sort Sort) *Term {
@@ -522,11 +571,13 @@ func (x *Exec) run(st *State, b *ssa.BasicBlock, start int) []Outcome {
 			outs := x.doCall(st, in)
 			if len(outs) == 1 && outs[0].st == st {
 				x.setReg(st, in, outs[0].results)
+				x.compactHeaps(st)
 				continue
 			}
 			var all []Outcome
 			for _, o := range outs {
 				x.setReg(o.st, in, o.results)
+				x.compactHeaps(o.st)
 				// continue after the call on each outcome
 				o.st.trace = o.st.trace[:len(o.st.trace):len(o.st.trace)]
 				all = append(all, x.runRest(o.st, b, i+1)...)
@@ -534,6 +585,7 @@ func (x *Exec) run(st *State, b *ssa.BasicBlock, start int) []Outcome {
 			return all
 		default:
 			forks := x.step(st, fr, b.Instrs[i])
+			x.compactHeaps(st)
 			if forks != nil {
 				var all []Outcome
 				for _, s2 := range forks {
@@ -647,6 +699,9 @@ func (x *Exec) havocLoop(st *State, fr *Frame, li *loopInfo) {
 			nh := x.fresh(k.key, k.sort)
 			st.heap[k.key] = nh
 			_ = h
+			if et, ok := x.heapElem[k.key]; ok {
+				st.assume(x.heapRefsBounded(nh, et, st.alloc)...)
+			}
 		}
 	}
 	// re-assume typing facts for iterator cells is not needed
@@ -1425,7 +1480,7 @@ func (x *Exec) convert(st *State, v Value, from, to types.Type, pos token.Pos) V
 			f, _ := new(big.Float).SetInt(val).Float64()
 			return TV{fpLit(f), to}
 		}
-		x.declareFun("i2f", "(declare-fun i2f (Int) (_ FloatingPoint 11 53))")
+		x.declareI2F()
 		return TV{App("i2f", SF64, tv.T), to}
 	case fs.IsFP() && ts == SInt:
 		x.declareFun("f2i", "(declare-fun f2i ((_ FloatingPoint 11 53)) Int)")
@@ -1637,4 +1692,36 @@ func sortedHeapKeys(m map[string]*Term) []string {
 	}
 	sort.Strings(ks)
 	return ks
+}
+
+// declareI2F: float64(int) is an uninterpreted function that never yields NaN or
+// infinity (every int64 is within float64's finite range); its rounding is assumed
+// correct by the language (listed as an assumption).
+func (x *Exec) declareI2F() {
+	if x.declared["i2f"] {
+		return
+	}
+	x.declareFun("i2f", "(declare-fun i2f (Int) (_ FloatingPoint 11 53))")
+	n := Atom("n!i2f", SInt)
+	app := App("i2f", SF64, n)
+	x.axioms = append(x.axioms, &Term{Op: "forall", Sort: SBool, Bound: []*Term{n}, Args: []*Term{And(Not(App("fp.isNaN", SBool, app)), Not(App("fp.isInfinite", SBool, app)))}, Pats: []*Term{app}})
+	x.assumeNote("float64(integer) is an uninterpreted, NaN-free, finite function of the integer (Go rounds it correctly; not modelled)")
+}
+
+// compactHeaps names every heap state that has grown into a large term:
+// H!n = <term> becomes a hypothesis and later terms mention only H!n.
+func (x *Exec) compactHeaps(st *State) {
+	for _, key := range sortedHeapKeys(st.heap) {
+		h := st.heap[key]
+		if len(h.Args) == 0 {
+			continue
+		}
+		if len(h.String()) < 160 {
+			continue
+		}
+		n := x.fresh(key, h.Sort)
+		termDefs[n.Op] = h
+		st.hyps = append(st.hyps, App("=", SBool, n, h))
+		st.heap[key] = n
+	}
 }
